@@ -377,6 +377,27 @@ func (n *nodeSim) checkSettled(where string) {
 	n.checkLocalReports()
 }
 
+// reportWithoutFlag: a bundle of this node whose payload is a well-formed status report but which does not
+// carry the administrative-record flag (C15: "the report is an administrative record").
+func (n *nodeSim) reportWithoutFlag(b *bpv7.Bundle, where string) {
+	if b.IsAdministrativeRecord() || !b.PrimaryBlock.SourceNode.SameNode(bpv7.MustNewEndpointID(simNodeEID)) {
+		return
+	}
+	pb, err := b.PayloadBlock()
+	if err != nil {
+		return
+	}
+	data := pb.Value.(*bpv7.PayloadBlock).Data()
+	if i := bytes.IndexByte(data, '|'); i > 0 && i < 12 && n.byTag[string(data[:i])] != nil {
+		return // workload
+	}
+	if ar, err := bpv7.NewAdministrativeRecordFromCbor(data); err == nil {
+		if sr, ok := ar.(*bpv7.StatusReport); ok {
+			n.res.Violate("C15", "well-formed", "status-report-without-administrative-record-flag", "bundle %s (%s) carries a status report about %s but not the administrative-record flag (flags %x)", b.ID(), where, sr.RefBundle, uint64(b.PrimaryBlock.BundleControlFlags))
+		}
+	}
+}
+
 // checkLocalReports: administrative records generated by the node that ended up with a local
 // agent or pending in the store are judged like those seen on the wire (C15).
 func (n *nodeSim) checkLocalReports() {
@@ -385,6 +406,9 @@ func (n *nodeSim) checkLocalReports() {
 			if b.IsAdministrativeRecord() {
 				bb := b
 				n.judgeReport(&bb, "delivered to local agent "+ag.name)
+			} else {
+				bb := b
+				n.reportWithoutFlag(&bb, "delivered to local agent "+ag.name)
 			}
 		}
 	}
@@ -401,6 +425,8 @@ func (n *nodeSim) checkLocalReports() {
 		}
 		if b, err := bi.Parts[0].Load(); err == nil && b.IsAdministrativeRecord() {
 			n.judgeReport(&b, "pending in the store")
+		} else if err == nil {
+			n.reportWithoutFlag(&b, "pending in the store")
 		}
 	}
 }
